@@ -80,6 +80,7 @@ func init() {
 				{Harness: "annotations.ZZC15Constructor24", Desc: "@constructor: recognition and parsed name list vs reference", Bounds: map[string]interface{}{"text_bytes": 24, "list_items": "<= 5 (Split unwinding asserted)"}},
 				{Harness: "annotations.ZZC15PackageOnly24", Desc: "@packageonly: recognition and allow-list (declaring package first) vs reference", Bounds: map[string]interface{}{"text_bytes": 24, "list_items": "<= 5"}},
 				{Harness: "ignore.ZZC15Ignore18", Desc: "@ignore: recognition and upper-cased code list vs reference", Bounds: map[string]interface{}{"text_bytes": 18, "list_items": "<= 5"}},
+				{Harness: "zzverif/zzh.ZZC15bAttachment", Desc: "attachment sites: a comment (6 annotation keywords, plain, 5 near-misses) at any two of 12 sites of a file (doc of type spec / type group / func / method / named field of an @immutable struct / field of another struct / embedded field / var / const, trailing comment, comment in a body, doc of a local type; plus a block-comment doc): annotations are produced exactly at the effective sites", Bounds: map[string]interface{}{"sites": 12, "non_plain_comments": "<= 2", "alternatives": 12}},
 				{Harness: "annotations.ZZC15Implements24", Desc: "@implements: recognition, pointer flag, qualifier, name vs reference", Bounds: map[string]interface{}{"text_bytes": 24}},
 			},
 			Post: func(c *checkCtx) {
@@ -197,6 +198,41 @@ func init() {
 			},
 			Outside:     []string{"aliases of aliases; generic aliases; dot-imports; @implements through aliases (C05)"},
 			Assumptions: []string{"as C01-C04; a local alias declaration is itself a reference to the type (PKGO01's first use in that file)"},
+		},
+	)
+}
+
+func init() {
+	props = append(props,
+		Prop{
+			ID: "C12",
+			Runs: []Run{
+				{Harness: "zzverif/zzh.ZZC12Layout", Desc: "the same six declarations (annotated type, constructor, user function, package-level initialiser, method with receiver overwrite and a shadowing local, @testonly function) in five layouts: canonical, reversed order, split over two files with blank lines / line and block comments inserted, files in another order, locals and receiver consistently renamed; annotations symbolic; 10 statement tags x 4 codes compared", Bounds: map[string]interface{}{"layouts": 5, "holes": 3, "statement_tags": 10}},
+			},
+			Outside:     []string{"gofmt reformatting other than blank lines/comments (line joins/splits)", "TONL01/PKGO01 once-per-file placement under reordering (the using package and type are compared in C03/C04, not here)", "compositions of more than the listed transformations"},
+			Assumptions: []string{"as C01-C03"},
+		},
+		Prop{
+			ID: "C17",
+			Runs: []Run{
+				{Harness: "zzverif/zzh.ZZC17WellFormed", Desc: "all-codes program, one analyzer at a time, with readable sources: [CODE] prefix with a documented code of the analyzer's category, no second code, located in the analysed package's file on the offending line, excerpt shows that line, help link = category page (frozen table). Concrete program: this harness is executed by the interpreter and natively, no symbolic input", Bounds: map[string]interface{}{"program": "allSrcD + allSrcU", "codes": 13}},
+				{Harness: "zzverif/zzh.ZZC17Inline", Desc: "inline '// @ignore CODE' with the displayed code on any <= 2 of the 13 diagnostic lines: exactly those diagnostics disappear", Bounds: map[string]interface{}{"markers": "<= 2 of 13"}},
+			},
+			Outside:     []string{"process exit status and -json rendering (x/tools multichecker)", "IMPL codes (see C05)", "real-world corpora"},
+			Assumptions: []string{"as C01-C04"},
+		},
+		Prop{
+			ID: "C09",
+			Runs: []Run{
+				{Harness: "zzverif/zzh.ZZC09Poisoned", PoisonOptional: true, Desc: "(c) every checker with empty local annotations and empty-or-absent imported facts returns no violation under symbolic configuration, with pass.Files / TypesInfo / Fset poisoned (any read aborts): no bound on the analysed program", Bounds: map[string]interface{}{"program": "unbounded (never read)", "imports": 2}},
+				{Harness: "zzverif/zzh.ZZC09Corpus", Desc: "(b) six skeleton programs of C01-C04 with every annotation comment replaced by a near-miss (8 kinds, two independent choices): no annotation, no marker, no diagnostic", Bounds: map[string]interface{}{"programs": 6, "near_miss_kinds": 8}},
+			},
+			Post: func(c *checkCtx) {
+				langInclusion(c, "annotations.ZZC15Regexes", "annotations.ZZC09Prefix", map[string]string{"implements": "implements", "constructor": "constructor", "immutable": "immutable", "testonly": "testonly", "mutable": "mutable", "packageonly": "packageonly"})
+				langInclusion(c, "ignore.ZZC15IgnoreRegex", "ignore.ZZC09Prefix", map[string]string{"ignore": "ignore"})
+			},
+			Outside:     []string{"real-world corpora (std, x/tools): not a solver task", "the induction over the import DAG (facts of unannotated dependencies are empty by (b), checkers are silent on empty facts by (c)) is argued, not mechanised", "@implements checker with no annotations returns before loading anything (covered in C05)"},
+			Assumptions: []string{"(a) unbounded RegLan inclusion: every text accepted by a recogniser has the anchored lowercase '// @keyword' + (end|blank) prefix form, ASCII"},
 		},
 	)
 }
